@@ -255,6 +255,15 @@ SetBol(v) ==
   /\ cur # 0 /\ bol' = v
   /\ UNCHANGED <<rs, inited, opt, files, yyin, cur, bstack, saved, fid, fresh, buf, eof, cvars, lineno, kvars, phase, wfrom, switched, hist>>
 
+\* yyset_lineno(n) / an assignment to yylineno: the user sets the line number; counting goes on from there.
+\* (A reentrant scanner keeps the number in the current buffer: there must be one.)  The scanner never
+\* looks at the value: with or without %option yylineno it is the user's from here on.
+SetLineno(n) ==
+  /\ (opt.reentrant => cur # 0) /\ lineno' = n
+  \* (the count is kept by differences: what a later REJECT of the current token gives back is taken from the new value)
+  /\ line0' = line0 + (n - lineno)
+  /\ UNCHANGED <<rs, inited, opt, bvars, cvars, text, pfx, more, cands, buf0, bol0, eaten, phase, wfrom, switched, hist>>
+
 \* ------------------------------------------------------------------ end of input
 \* Nothing buffered and the source exhausted.  Without a user yywrap the
 \* <<EOF>> action of the current condition (k = 0: the default one, which
